@@ -1,7 +1,9 @@
 package copyh
 
 import (
+	"encoding/json"
 	"errors"
+	"os"
 	"fmt"
 	"sort"
 	"strconv"
@@ -257,6 +259,9 @@ func Drive(run *common.Run, prop string, b Budget) {
 	}
 	one := func(c *Case) {
 		id := run.NewID()
+		if js, err := json.Marshal(c); err == nil {
+			os.WriteFile(currentCasePath(run.Dir), js, 0o644)
+		}
 		res := Execute(c)
 		if res.SetupErr != nil {
 			panic(fmt.Errorf("harness setup failed (not a property failure): %w", res.SetupErr))
@@ -355,6 +360,7 @@ func Drive(run *common.Run, prop string, b Budget) {
 	stream("contention", b.Contention)
 	stream("cbfail", b.CbFail)
 	stream("twin", b.Twin)
+	os.Remove(currentCasePath(run.Dir))
 }
 
 func implLine(res *Result) string {
